@@ -13,7 +13,7 @@ substituted. -/
 syntax "bstep " ident : tactic
 macro_rules
   | `(tactic| bstep $h) => `(tactic|
-      (simp only [step, execLock, send, skipExit, skipClose, skipGone, subCall, subAcquire, subReturn,
+      (simp only [step, execLock, send, skipExit, skipClose, skipGone, subCall, subAcquire, subReturn, subCallDone, subAcquireDone,
          cancel, fwdTake, fwdDeliver, fwdDropCtx, fwdDropClose, fwdExitCtx, fwdExitClose, fwdCloseExit,
          fwdRemove, closeCall, closeLock, closeReturn, setSub] at $h:ident <;>
        (repeat' (split at $h:ident)) <;>
@@ -173,6 +173,15 @@ theorem invCtl_step {cfg : Cfg} {s s' : State} {a : Label} (hA : Processor.InvA 
       intro hcr
       have := e (Or.inr hcr)
       simp_all
+  case subAcquireDone =>
+    bstep hst
+    · obtain ⟨a, b, c, d, e, f, g⟩ := h
+      exact ⟨a, b, c, d, e, f, g⟩
+    · obtain ⟨a, b, c, d, e, f, g⟩ := h
+      refine ⟨a, b, c, d, e, ?_, g⟩
+      intro hcr
+      have := e (Or.inr hcr)
+      simp_all
   all_goals (bstep hst <;> simp_all <;> (try grind))
 
 theorem invCtl {cfg : Cfg} {s : State} (hr : Reach (lts cfg) s) : InvCtl s := by
@@ -245,6 +254,13 @@ theorem invSub_step {cfg : Cfg} {s s' : State} {a : Label} (h : InvSub cfg s)
   case closeCall =>
     rcases closeCall_cases (by simpa [step] using hst) with ⟨p', hp, _, rfl⟩ | ⟨_, rfl⟩ <;> exact h
   case subAcquire =>
+    bstep hst
+    · exact h
+    · intro u hu
+      rcases List.mem_append.mp hu with hu | hu
+      · exact h u hu
+      · simp only [List.mem_singleton] at hu; subst hu; simp [SubOK, Sub.new]
+  case subAcquireDone =>
     bstep hst
     · exact h
     · intro u hu
@@ -327,6 +343,22 @@ theorem invSuf_step {cfg : Cfg} {s s' : State} {a : Label} (hC : InvCtl s) (h : 
       · omega
       · intro hm; rw [List.drop_append_of_le_length this.1]; try simp [← this.2 hm]
   case subAcquire =>
+    bstep hst
+    · exact h
+    · intro j u hj
+      rw [List.getElem?_append] at hj
+      split at hj
+      · have := h j u hj
+        simp only [SufOK, pend] at *
+        exact this
+      · have hlt := lt_of_getElem? hj
+        simp only [List.length_singleton] at hlt
+        have hj' : j = s.subs.length := by omega
+        subst hj'
+        simp at hj; subst hj
+        simp only [SufOK, pend, Sub.new, Sub.seq, Sub.hand]
+        cases he : s.epc <;> simp_all [lockFree]
+  case subAcquireDone =>
     bstep hst
     · exact h
     · intro j u hj
@@ -461,6 +493,18 @@ theorem invOut_step {cfg : Cfg} {s s' : State} {a : Label} (hF : Processor.InvF 
       · intro u hu x hx; exact List.mem_append_left _ (h4 u hu x hx)
       · intro r' i' hh _; simp at hh; simp [hh.1]
   case subAcquire =>
+    bstep hst
+    · exact ⟨h1, h2, h3, h4, h5, h6⟩
+    · refine ⟨h1, h2, h3, ?_, ?_, h6⟩
+      · intro u hu
+        rcases List.mem_append.mp hu with hu | hu
+        · exact h4 u hu
+        · simp at hu; subst hu; simp [Sub.new, Sub.seq, Sub.hand]
+      · intro r i he hlt
+        rename_i hlf _
+        simp only at he
+        simp [lockFree, he] at hlf
+  case subAcquireDone =>
     bstep hst
     · exact ⟨h1, h2, h3, h4, h5, h6⟩
     · refine ⟨h1, h2, h3, ?_, ?_, h6⟩
@@ -612,6 +656,23 @@ theorem invSubl_step {cfg : Cfg} {s s' : State} {a : Label} (hC : InvCtl s) (h :
         simp at hj; subst hj
         simp only [SublOK, pend, Sub.new, Sub.seq, Sub.hand]
         cases he : s.epc <;> simp_all [lockFree]
+  case subAcquireDone =>
+    unfold InvSubl at *
+    bstep hst
+    · exact h
+    · intro j u hj
+      rw [List.getElem?_append] at hj
+      split at hj
+      · have := h j u hj
+        simp only [SublOK, pend] at *
+        exact this
+      · have hlt := lt_of_getElem? hj
+        simp only [List.length_singleton] at hlt
+        have hj' : j = s.subs.length := by omega
+        subst hj'
+        simp at hj; subst hj
+        simp only [SublOK, pend, Sub.new, Sub.seq, Sub.hand]
+        cases he : s.epc <;> simp_all [lockFree]
   case send =>
     bstep hst
     rename_i _ r i he _ u hu hcond
@@ -629,6 +690,7 @@ theorem invSubl_step {cfg : Cfg} {s s' : State} {a : Label} (hC : InvCtl s) (h :
     rename_i _ r i he _ u hu hcond
     exact subl_exec h he hu rfl (by simp [Sub.seq, Sub.hand])
   case subCall => bstep hst; exact h
+  case subCallDone => bstep hst; exact h
   case subReturn => bstep hst; exact h
   case closeLock => bstep hst; exact h
   case closeReturn => bstep hst; exact h
